@@ -253,7 +253,7 @@ package jsonrpc2
 //@ func (*Response).marshal [C19]
 //@   track toWireError as wireErr
 //@   requires msg != nil && to != nil
-//@   modifies *
+//@   modifies to.ID, to.Error, to.Result
 //@   assert at call toWireError: @error-is-mapped $0 == msg.Error
 
 // DecodeMessage (after the library decode): wrong version tag or undecodable id => error; a message with a method key
@@ -278,3 +278,15 @@ package jsonrpc2
 //@   ensures @request-keeps-id result.1 == nil && typeIs(result.0, *Request) ==> calls(mkid) == 1 && result.0.(*Request).ID == callResult(mkid, 1, 0)
 //@   ensures @response-keeps-id result.1 == nil && typeIs(result.0, *Response) ==> calls(mkid) == 1 && result.0.(*Response).ID == callResult(mkid, 1, 0) && result.0.(*Response).ID.value != nil
 //@   ensures @only-requests-and-responses result.1 == nil ==> typeIs(result.0, *Request) || typeIs(result.0, *Response)
+
+// marshal (both message kinds) writes only the wire struct it is given.
+//@ func (Message).marshal
+//@   abstract
+//@   params msg, to
+//@   modifies all(to)
+//@ func toWireError [C19]
+//@   modifies extern
+
+// EncodeMessage only reads the message (frame checked): it fills a local wire struct and marshals it.
+//@ func EncodeMessage [C19, C10, C08]
+//@   modifies extern
